@@ -161,6 +161,11 @@ func checkC05(c *hx.Ctx) {
 				c.Distinct(fmt.Sprintf("%s t=%d", gridPt, t))
 			}
 		}
+		if len(tv.calls) != 1 {
+			c.Violation(fmt.Sprintf("C05 the intake time validator was consulted %d more time(s) while resolving anchored operations: %s", len(tv.calls)-1, gridPt),
+				map[string]interface{}{"grid": gridPt, "validator_calls": tv.calls})
+			return
+		}
 		if i%97 == 0 {
 			c.Sample(4, map[string]interface{}{"grid_point": gridPt, "times": times, "validator_args": tv.calls})
 		}
